@@ -116,6 +116,11 @@ impl Property for C17Prop {
         match case["kind"].as_str().unwrap_or("") {
             "repl" => check_repl(case, stats),
             "call" => check_call(case, stats),
+            // a fixed REPL history that keeps a recorded finding visible under a signature of its own
+            "probe" => match check_repl(case, stats) {
+                Verdict::Fail(f) => fail(case["sig"].as_str().unwrap_or("C17:probe").to_string(), f.msg),
+                other => other,
+            },
             _ => Verdict::Discard("unknown kind"),
         }
     }
@@ -348,6 +353,13 @@ pub fn run(session: &Session) -> i32 {
             cases.push(json!({"kind": "call", "program": program, "args": l, "arity": arity}));
         }
     }
+    // recorded finding: the empty array literal carries the element type `!` wherever it flows, so a later
+    // REPL input (which sees the value, not the declared type) sums it as ints
+    cases.push(json!({"kind": "probe", "sig": "C17:probe:empty-literal-forgets-declared-element-type", "files": {}, "inputs": [
+        {"declares": ["f"], "text": "f := () -> [float] { return []; };"},
+        {"declares": ["e"], "text": "e := f();"},
+        {"declares": [], "text": "e~ $+;"},
+    ]}));
     session.set_extra("enumerated_call_cases", json!(cases.len()));
     if !session.stopped() {
         session.run_enum(&C17, cases);
